@@ -2,6 +2,6 @@ package main
 
 func init() {
 	props["C26"] = &propCfg{Engine: "keepersim", Test: "TestC26", Level: "exploration",
-		Quick:    tierCfg{Runs: 64000, BudgetS: 120},
+		Quick:    tierCfg{Runs: 32000, BudgetS: 120},
 		Thorough: tierCfg{Runs: 4000000, JobSize: 4000, BudgetS: 1500}}
 }
